@@ -306,6 +306,19 @@ def c11(run, args):
         behaviours = [d["behaviour"]]
     else:
         run.model_check("MCMailstore", MC_CFG % dict(caps="0, 2", limits="0", maxadds=3), label="MCMailstore(caps)")
+        # the implementation-shaped model of one mailbox directory: every operation is its sequence of file-system mutations, the
+        # process may die between any two: Readable and AllOrNothing at every crash point
+        F = "FALSE"
+        for cap, maxid in ((0, 4), (1, 4), (2, 5)) if quick else ((0, 5), (1, 5), (2, 6), (3, 6)):
+            run.model_check("FileStoreImpl", FSIMPL_CFG % dict(cap=cap, maxid=maxid, inplace=F, evictfirst=F, rmfirst=F),
+                            label="FileStoreImpl(cap=%d): crash-safe" % cap, workers=4)
+        # the three named deviations (the code before its repairs): TLC must find the predicted crash states (predictions, never verdicts)
+        pred = {}
+        for name, flags in (("IndexInPlace", ("TRUE", F, F)), ("EvictBeforeAdd", (F, "TRUE", F)), ("RemoveAllFirst", (F, F, "TRUE"))):
+            rc, out, dt = run.tlc("FileStoreImpl", FSIMPL_CFG % dict(cap=2, maxid=5, inplace=flags[0], evictfirst=flags[1], rmfirst=flags[2]), workers=4, timeout=300, heap="4g")
+            pred[name] = [x for x in ("Readable", "AllOrNothing", "ConsistentWhenIdle") if ("Invariant %s is violated" % x) in out]
+        run.cov["stages"].append({"stage": "model-check", "module": "FileStoreImpl(deviations)", "mode": "prediction", "violated_as_predicted": pred})
+        run.log("FileStoreImpl deviations: predicted violations %s" % pred)
         # pre-history + target operation = every mutator sequence to a bounded depth; the last operation is the one that is interrupted
         bfs = run.generate("GenMailstore", gen_cfg(2, [1], [1], 4 if quick else 5, scan=False, seen=True))
         bfs = [b for b in bfs if b[-1]["op"] in ("add", "seen", "remove", "purge")]
@@ -352,6 +365,17 @@ def c11(run, args):
 
 
 # --------------------------------------------------------------------------- C09
+FSIMPL_CFG = """SPECIFICATION Spec
+CONSTANTS
+  Cap = %(cap)d
+  MaxId = %(maxid)d
+  IndexInPlace = %(inplace)s
+  EvictBeforeAdd = %(evictfirst)s
+  RemoveAllFirst = %(rmfirst)s
+INVARIANTS Readable AllOrNothing ConsistentWhenIdle
+CHECK_DEADLOCK FALSE
+"""
+
 IMPL_CFG = """SPECIFICATION Spec
 CONSTANTS
   Thread = {t1, t2, t3}
